@@ -7,6 +7,7 @@ import (
 	"github.com/brimdata/super/runtime"
 	"math/rand"
 	"os"
+	goruntime "runtime"
 	"runtime/debug"
 	"runtime/pprof"
 	"strings"
@@ -59,6 +60,10 @@ func (c *Client) Compiler() runtime.Compiler {
 	return c.comp
 }
 
+// baseProcs is GOMAXPROCS as the driver set it (-test.cpu), captured by the
+// first world.
+var baseProcs int
+
 type seededReader struct{ s uint64 }
 
 func (r *seededReader) Read(p []byte) (int, error) {
@@ -94,6 +99,10 @@ func InBubble(f func()) (p *bubblePanic, leaked bool) {
 				return
 			}
 			if strings.Contains(msg, "deadlock") {
+				if os.Getenv("VERIF_DEBUG_LEAK") != "" {
+					fmt.Fprintln(os.Stderr, "DEADLOCK:", msg)
+					pprof.Lookup("goroutine").WriteTo(os.Stderr, 2)
+				}
 				p = &bubblePanic{val: "bubble deadlock: " + msg, stack: string(debug.Stack())}
 				return
 			}
@@ -117,6 +126,17 @@ func NewWorld(tape *kernel.Tape, mode simdisk.Mode, out *kernel.Outcome) *World 
 		Sc: tape.Stream("schedule"), Fl: tape.Stream("faults"), Out: out, start: time.Now()}
 	ksuid.SetRand(&seededReader{s: tape.Seed})
 	rand.Seed(int64(tape.Seed))
+	// GOMAXPROCS is a tuning knob of the code under test (vacuum's worker
+	// limit, default reader threads): vary it per run, as a function of the
+	// seed.  Engines the driver pins to one P stay there.
+	if baseProcs == 0 {
+		baseProcs = goruntime.GOMAXPROCS(0)
+	}
+	if baseProcs > 1 {
+		n := []int{baseProcs, 1, 4}[tape.Seed%3]
+		goruntime.GOMAXPROCS(n)
+		out.Probe(fmt.Sprintf("gomaxprocs=%d", n))
+	}
 	w.Sched = kernel.NewSched(w.Sc, 400)
 	w.Disk = simdisk.NewDisk(mode, w.Sched)
 	w.RootURI = w.Disk.Root()
